@@ -471,6 +471,19 @@ unsafe fn db_handle_ref<'a>(db: *mut ndb_db_t) -> ApiResult<&'a DbHandle> {
     })
 }
 
+/// Verification-only accessor: the `Db` behind an open handle, so that a harness can read
+/// the in-process state through the Rust API while driving writes through the C ABI.
+///
+/// # Safety
+/// `db` must be a live handle returned by `ndb_open`; the reference must not outlive it.
+#[cfg(luqing_studio_nervusdb_verif)]
+pub unsafe fn verif_db<'a>(db: *mut ndb_db_t) -> Option<&'a core::Db> {
+    if db.is_null() {
+        return None;
+    }
+    unsafe { (*db.cast::<DbHandle>()).db.as_ref() }
+}
+
 fn db_ref_from_handle(handle: &DbHandle) -> ApiResult<&core::Db> {
     handle
         .db
